@@ -195,6 +195,17 @@ func propertyMain(id string, args []string) int {
 		nw = 16
 	}
 	say("property %s tier=%s workers=%d harnesses=%d", id, tierName, nw, len(specs))
+	xdir := ""
+	if os.Getenv("SYMGO_NO_XCHECK") == "" {
+		xdir = filepath.Join(verifRoot, ".work", fmt.Sprintf("xcheck-%s-%d", id, os.Getpid()))
+		os.RemoveAll(xdir)
+		if os.MkdirAll(xdir, 0o755) == nil {
+			os.Setenv("SYMGO_XCHECK_DIR", xdir)
+			defer os.RemoveAll(xdir)
+		} else {
+			xdir = ""
+		}
+	}
 	p, err := newPool(nw)
 	if err != nil {
 		say("%v", err)
@@ -218,6 +229,18 @@ func propertyMain(id string, args []string) int {
 	known := loadKnown()
 	exit := 0
 	inconclusive := []string{}
+	var xc *xcheckResult
+	if xdir != "" {
+		xc = crossCheck(xdir)
+		say("cross-check: %d sampled unsat verdicts re-decided by %s: %d confirmed, %d unknown, %d errors, %d disagreements (%.1fs)",
+			xc.Sampled, xc.Solver, xc.Confirmed, xc.Unknown, xc.Errors, xc.Disagree, xc.WallS)
+		if xc.Disagree > 0 {
+			inconclusive = append(inconclusive, fmt.Sprintf("SOLVER-DISAGREEMENT %d unsat verdicts are sat on the second solver, e.g. %s", xc.Disagree, xc.DisagreeAt[0]))
+		}
+		if xc.Errors > 0 {
+			inconclusive = append(inconclusive, fmt.Sprintf("SOLVER-ERROR second solver printed an error on %d of %d scripts", xc.Errors, xc.Sampled))
+		}
+	}
 	violations := 0
 	knownMatched := []string{}
 	validated := 0
@@ -429,7 +452,7 @@ func propertyMain(id string, args []string) int {
 	if exit == 0 && len(inconclusive) > 0 {
 		exit = 2
 	}
-	writeEvidence(id, tierName, seed, ps, res, names, validated, violations, inconclusive, knownMatched, time.Since(t0).Seconds())
+	writeEvidence(id, tierName, seed, ps, res, names, validated, violations, inconclusive, knownMatched, time.Since(t0).Seconds(), xc)
 	status := map[int]string{0: "held", 1: "violated", 2: "inconclusive"}[exit]
 	say("RESULT property=%s status=%s wall=%.1fs", id, status, time.Since(t0).Seconds())
 	return exit
